@@ -42,6 +42,18 @@ sets are in force (class or instance attribute) before the template is
 compiled from text, from a loader, or as an included loader template.  The
 hook in force when the template runs must log the reference's events and its
 results must be the output; a hook that was replaced must stay silent.
+
+Fifth part: environment FLAVOURS.  "Every sandboxed environment": the recording
+sandbox is not only a direct SandboxedEnvironment subclass with every
+class-level option at its default.  It is an ImmutableSandboxedEnvironment, a
+sandbox that sets one of the documented class-level options of Environment
+(code_generator_class to an own CodeGenerator subclass, to the documented base
+class named explicitly, on the instance; context_class; template_class), or a
+sandbox combined with NativeEnvironment (docs/nativetypes.rst "Sandboxed Native
+Environment") in either base-class order, also with an own NativeCodeGenerator
+subclass.  Text flavours render whole generated programs (log and output against
+the reference); native flavours render one generated expression and the native
+VALUE is compared.
 """
 from __future__ import annotations
 
@@ -54,7 +66,9 @@ LEVEL = "exploration"
 TECHNIQUE = ("recording+perturbing interception hooks vs reference interpreter over generated expression programs, "
              "per operator subset, per overlay family and per compile route (text, own AST, AST parsed by another "
              "environment, compile + from_code, compile_expression) and per way / moment of installing the hook "
-             "(subclass, instance attribute, class attribute, operator-table callbacks; before / after compilation)")
+             "(subclass, instance attribute, class attribute, operator-table callbacks; before / after compilation) "
+             "and per flavour of sandboxed environment class (immutable, own code generator / context / template "
+             "class, combined with NativeEnvironment)")
 RULE = ("case = (subset of the 9 interceptable operators, generated program, sync/async); "
         "programs are random statement lists (output, set, if, for with/without filter, with, "
         "macro default + call) over fully parenthesised expression trees (constants, variables, "
@@ -82,8 +96,17 @@ RULE = ("case = (subset of the 9 interceptable operators, generated program, syn
         "hook after compilation, instance hook deleted after compilation, interception sets replaced by their "
         "complement after compilation] x interception sets on the class / on the instance x template from text / "
         "loader / included loader template), each on a fresh environment: 3 per (subset, round) rotating over the "
-        "12 installations x 2 places; distinct and non-trivial when the reference sees >=1 intercepted application")
-LEVEL_TEXT = ("hook installations: on every executed (subset, program, installation) triple the hook in force at "
+        "12 installations x 2 places; distinct and non-trivial when the reference sees >=1 intercepted application; "
+        "flavour cases = (non-empty subset, generated program or - native flavours - one generated expression, "
+        "sync/async, flavour of the sandboxed environment class [ImmutableSandboxedEnvironment; documented class-level "
+        "options set by the subclass: code_generator_class = own CodeGenerator subclass / = the base CodeGenerator "
+        "named explicitly / assigned on the instance, own context_class, own template_class; SandboxedEnvironment "
+        "combined with NativeEnvironment in both base-class orders, and with an own NativeCodeGenerator subclass]): "
+        "2 per (subset, round) rotating over the 9 flavours; distinct and non-trivial when the reference sees >=1 "
+        "intercepted application")
+LEVEL_TEXT = ("environment flavours: on every executed (subset, program, flavour) triple the hook of the "
+              "flavoured sandbox logged exactly the reference's events and determined the output (native: value); "
+              "hook installations: on every executed (subset, program, installation) triple the hook in force at "
               "render time logged exactly the reference's events and determined the output, and a replaced hook "
               "was never called; "
               "compile routes: the hook log and output (compile_expression: value) equal the reference on "
@@ -100,6 +123,7 @@ ASSUMPTIONS = [
     "overlay families: an environment's interception configuration is fixed before that environment loads its first template (class attribute, or instance attribute set on the parent before any load / on the overlay directly after overlay()); re-configuring an environment that already holds compiled templates is not generated",
     "compile routes: Environment.from_string and Environment.compile accept a nodes.Template (their signatures and docstrings: 'Compile a node or template source code'), Environment.parse is the documented way to obtain one (low-level API, meta API), and Template.from_code is documented; an AST is compiled once (a fresh parse per route); the environment that compiles and renders is the one whose interception configuration counts, whichever environment parsed the source; compile_expression is exercised on sync environments only",
     "hook installations: docs/sandbox.rst 'Operator Intercepting' - the intercepted sets instruct the COMPILER to replace the symbols with calls to call_binop / call_unop, whose default implementation uses binop_table / unop_table; hence (a) for a template compiled while an operator was intercepted every application is a call of the environment's call_binop / call_unop attribute looked up the ordinary Python way when the template runs (instance attribute first, then the class, whenever it was assigned), (b) the stock method calls the callback the table holds at that moment, (c) changing the sets after compilation does not change an already compiled template. The sets are always in force before the template is compiled; hooks on overlays and hooks installed while a render is in progress are not generated; the instance hooks call SandboxedEnvironment.call_binop / call_unop for the real result",
+    "environment flavours: code_generator_class / context_class are documented attributes of Environment (docs/api.rst), template_class is the class from_string / get_template instantiate, and docs/nativetypes.rst documents combining SandboxedEnvironment with NativeEnvironment; the own generator / context / template classes are behaviour-preserving subclasses of the class the environment would use anyway; native flavours render ONE output expression ('if the result is a single node, its value is returned'), and when the reference value is a str the native result may be that str or its ast.literal_eval parse",
     "programs whose plain-Python evaluation raises (ZeroDivisionError, TypeError), exceeds 1e12, yields complex numbers, or sums floats with |sum (builtin sum compensates rounding) are discarded",
 ]
 #: compile routes other than source text through from_string (table ROUTES below)
@@ -127,6 +151,19 @@ INSTALL_NAMES = [
     "instance-hook-removed-after-compile",   # hook on the instance, compile, del env.call_binop: stock again
     "intercepted-sets-changed-after-compile",  # subclass hook; compile under S, then the sets say the complement
 ]
+#: flavours of the sandboxed environment CLASS (fifth part, make_flavour_env below)
+FLAVOUR_NAMES = [
+    "immutable-sandbox",                     # ImmutableSandboxedEnvironment subclass
+    "own-code-generator",                    # code_generator_class = harmless CodeGenerator subclass
+    "base-code-generator-named-explicitly",  # code_generator_class = jinja2.compiler.CodeGenerator in the class body
+    "code-generator-on-instance",            # env.code_generator_class = own subclass, before compiling
+    "own-context-class",                     # context_class = pass-through Context subclass
+    "own-template-class",                    # template_class = Template subclass
+    "sandbox+native",                        # class (SandboxedEnvironment, NativeEnvironment), as in docs/nativetypes.rst
+    "native+sandbox",                        # class (NativeEnvironment, SandboxedEnvironment)
+    "sandbox+native-own-generator",          # the documented combination with an own NativeCodeGenerator subclass
+]
+NATIVE_FLAVOURS = [f for f in FLAVOUR_NAMES if "native" in f]
 NSHARDS = {"quick": 16, "thorough": 16}
 BUDGET_S = {"quick": 12, "thorough": 240}
 FLOORS = {
@@ -143,7 +180,10 @@ FLOORS = {
                            "install_sets_on:class": 250, "install_sets_on:instance": 250,
                            "install_via:from_string": 160, "install_via:loader": 160,
                            "install_via:loader-include": 160,
-                           **{"install_nontrivial_cases:" + i: 25 for i in INSTALL_NAMES}}},
+                           **{"install_nontrivial_cases:" + i: 25 for i in INSTALL_NAMES},
+                           "flavour_cases": 200, "flavour_events_compared": 350,
+                           "flavour_native_values_compared": 70,
+                           **{"flavour_nontrivial_cases:" + f: 9 for f in FLAVOUR_NAMES}}},
     "thorough": {"evaluations": 80000, "distinct": 60000,
                  "counters": {"hook_events": 200000, "subsets": 512, "events_compared": 200000,
                               "unintercepted_applications": 200000, "async_renders": 12000,
@@ -158,7 +198,10 @@ FLOORS = {
                               "install_sets_on:class": 4500, "install_sets_on:instance": 4500,
                               "install_via:from_string": 3000, "install_via:loader": 3000,
                               "install_via:loader-include": 3000,
-                              **{"install_nontrivial_cases:" + i: 550 for i in INSTALL_NAMES}}},
+                              **{"install_nontrivial_cases:" + i: 550 for i in INSTALL_NAMES},
+                              "flavour_cases": 3600, "flavour_events_compared": 6500,
+                              "flavour_native_values_compared": 1300,
+                              **{"flavour_nontrivial_cases:" + f: 180 for f in FLAVOUR_NAMES}}},
 }
 
 ALL_OPS = [("b", o) for o in G.BINOPS] + [("u", o) for o in G.UNOPS]
@@ -806,6 +849,168 @@ def install_case_for(rng, b, u, prog, n):
             "via": rng.choice(INSTALL_VIA)}
 
 
+# ------------------------------------------------------ environment flavours
+# Fifth part: WHICH sandboxed environment class intercepts.  The property
+# quantifies over every sandboxed environment; docs/api.rst documents the
+# class-level options code_generator_class / context_class, docs/nativetypes.rst
+# the combination with NativeEnvironment, docs/sandbox.rst the immutable sandbox.
+_flavour_cache = {}
+
+
+def make_flavour_env(flavour, binops, unops, is_async):
+    """A fresh recording sandbox of the given flavour (own class per call)."""
+    from jinja2 import Template
+    from jinja2.compiler import CodeGenerator
+    from jinja2.nativetypes import NativeCodeGenerator, NativeEnvironment
+    from jinja2.runtime import Context
+    from jinja2.sandbox import ImmutableSandboxedEnvironment, SandboxedEnvironment
+
+    key = (flavour, tuple(binops), tuple(unops), is_async)
+    if key in _flavour_cache:
+        return _flavour_cache[key]
+
+    class Hooks:
+        intercepted_binops = frozenset(binops)
+        intercepted_unops = frozenset(unops)
+
+        def call_binop(self, context, operator, left, right):
+            self.vt_log.append(["b", operator, G.tag(left), G.tag(right)])
+            rv = super().call_binop(context, operator, left, right)
+            return G.perturb(rv)
+
+        def call_unop(self, context, operator, arg):
+            self.vt_log.append(["u", operator, G.tag(arg)])
+            rv = super().call_unop(context, operator, arg)
+            return G.perturb(rv)
+
+    def commenting(base):
+        # behaviour-preserving generator: one more comment line per compiled template
+        class VtGenerator(base):
+            def visit_Template(self, node, frame=None):
+                self.writeline("# compiled by a harness-side generator subclass")
+                return super().visit_Template(node, frame)
+        return VtGenerator
+
+    on_instance = None
+    if flavour == "immutable-sandbox":
+        class Env(Hooks, ImmutableSandboxedEnvironment):
+            pass
+    elif flavour == "own-code-generator":
+        class Env(Hooks, SandboxedEnvironment):
+            code_generator_class = commenting(CodeGenerator)
+    elif flavour == "base-code-generator-named-explicitly":
+        class Env(Hooks, SandboxedEnvironment):
+            code_generator_class = CodeGenerator
+    elif flavour == "code-generator-on-instance":
+        class Env(Hooks, SandboxedEnvironment):
+            pass
+        on_instance = commenting(CodeGenerator)
+    elif flavour == "own-context-class":
+        class VtContext(Context):
+            def resolve_or_missing(self, key):
+                return super().resolve_or_missing(key)
+
+        class Env(Hooks, SandboxedEnvironment):
+            context_class = VtContext
+    elif flavour == "own-template-class":
+        class VtTemplate(Template):
+            pass
+
+        class Env(Hooks, SandboxedEnvironment):
+            template_class = VtTemplate
+    elif flavour == "sandbox+native":
+        class Env(Hooks, SandboxedEnvironment, NativeEnvironment):
+            pass
+    elif flavour == "native+sandbox":
+        class Env(Hooks, NativeEnvironment, SandboxedEnvironment):
+            pass
+    elif flavour == "sandbox+native-own-generator":
+        class Env(Hooks, SandboxedEnvironment, NativeEnvironment):
+            code_generator_class = commenting(NativeCodeGenerator)
+    else:
+        raise AssertionError(flavour)
+    env = Env(enable_async=is_async)
+    if on_instance is not None:
+        env.code_generator_class = on_instance
+    env.vt_log = []
+    if len(_flavour_cache) > 64:
+        _flavour_cache.clear()
+    _flavour_cache[key] = env
+    return env
+
+
+def run_flavour_case(ctx, case, count=True):
+    """Text flavours: the whole program, log and output against the reference.
+    Native flavours: case['prog'] is one output statement; log and native VALUE."""
+    import ast
+
+    binops, unops, prog, is_async = case["binops"], case["unops"], case["prog"], case["async"]
+    flavour = case["flavour"]
+    native = flavour in NATIVE_FLAVOURS
+    ref = G.Ref(binops, unops)
+    try:
+        if native:
+            exp_val = ref.ev(prog[0][1], dict(G.CONTEXT))
+            exp_out = G.tag(exp_val)
+        else:
+            exp_out = ref.run(prog, dict(G.CONTEXT))
+    except G.Discard:
+        if count:
+            ctx.count("discarded_programs")
+        return False
+    # (native: exactly one output node, nothing around it)
+    source = "{{ " + G.src(prog[0][1]) + " }}" if native else G.stmts_src(prog)
+    err = out = None
+    log = []
+    try:
+        env = make_flavour_env(flavour, binops, unops, is_async)
+        env.vt_log = log
+        val = env.from_string(source).render(**G.CONTEXT)
+        if native:
+            out = G.tag(val)
+            if isinstance(exp_val, str) and out != exp_out:
+                # documented: a str result is returned as is or as its literal_eval parse
+                try:
+                    if G.tag(ast.literal_eval(exp_val)) == out:
+                        out = exp_out
+                except Exception:
+                    pass
+        else:
+            out = val
+    except Exception as e:
+        out, err = None, f"{type(e).__name__}: {e}"
+    if count:
+        ctx.ev()
+        ctx.count("flavour_cases")
+        ctx.count("flavour_cases:" + flavour)
+        ctx.count("flavour_events_compared", len(ref.log))
+        ctx.count("hook_events", len(log))
+        ctx.count("events_compared", len(ref.log))
+        ctx.count("unintercepted_applications", sum(ref.applied.values()) - len(ref.log))
+        if native:
+            ctx.count("flavour_native_values_compared")
+        if is_async:
+            ctx.count("async_renders")
+            ctx.count("flavour_async_cases")
+        if len(ref.log) >= 1:
+            ctx.count("flavour_nontrivial_cases:" + flavour)
+            ctx.dist(["flavour", flavour, binops, unops, prog, is_async])
+    full = dict(case, flavoured=True, source=source)
+    who = f"sandboxed environment flavour {flavour} (async={is_async}): "
+    compare(ctx, f"flavour:{flavour}:", who, log, ref.log, out, exp_out, err, binops, unops, source, full)
+    return True
+
+
+def flavour_case_for(gen, rng, b, u, n):
+    flavour = FLAVOUR_NAMES[n % len(FLAVOUR_NAMES)]
+    if flavour in NATIVE_FLAVOURS:
+        prog = [["out", gen.any(rng.randint(1, 4), list(G.NUM_VARS))]]
+    else:
+        prog = gen.program()
+    return {"binops": b, "unops": u, "prog": prog, "async": (n // len(FLAVOUR_NAMES)) % 4 == 3,
+            "flavour": flavour}
+
+
 def run(ctx):
     quick = ctx.tier == "quick"
     subsets = quick_subsets(ctx.rng_global("subsets")) if quick else all_subsets()
@@ -824,6 +1029,9 @@ def run(ctx):
     irng = ctx.rng("install")
     isampled = 0
     rsampled = 0
+    nflavour = ctx.shard * 4 + ctx.seed
+    frng = ctx.rng("flavour")
+    fsampled = 0
     while rounds < max_rounds:
         for mask, b, u in mine:
             for j in range(per_round):
@@ -865,6 +1073,14 @@ def run(ctx):
                         isampled += 1
                         ctx.sample({k: v for k, v in icase.items() if k != "prog"}
                                    | {"source": G.stmts_src(icase["prog"])})
+                for j in range(2):
+                    # which sandboxed environment class intercepts (rotating over the 9 flavours)
+                    nflavour += 1
+                    fcase = flavour_case_for(gen, frng, b, u, nflavour)
+                    if run_flavour_case(ctx, fcase) and fsampled < 1 and ctx.shard == 4:
+                        fsampled += 1
+                        ctx.sample({k: v for k, v in fcase.items() if k != "prog"}
+                                   | {"source": G.stmts_src(fcase["prog"])})
             if mask not in seen_subsets:
                 seen_subsets.add(mask)
                 ctx.count("subsets")
@@ -882,5 +1098,7 @@ def replay(ctx, case):
         run_overlay_case(ctx, case, count=False)
     elif case.get("installed"):
         run_install_case(ctx, case, count=False)
+    elif case.get("flavoured"):
+        run_flavour_case(ctx, case, count=False)
     else:
         run_case(ctx, case, count=False)
